@@ -392,6 +392,21 @@ pub fn pool_histories(out: &mut Out, rng: &mut Rng, n: u64) {
             Op::Withdraw { u: 0, amount: 1_000_000_000 },
             Op::Collect,
         ]) },
+        // a ramp that has COMPLETED: swaps (and their quotes) at and after the ramp's last block use the target amplification
+        History { amp: 85, fees: (DEC / 1000, 3 * DEC / 1000, DEC / 1000), kinds: [false, true, false], len: 0, fixed: Some(vec![
+            Op::Provide { u: 0, d: [1_000_000_000, 1_200_000_000, 900_000_000] },
+            Op::Ramp { owner: true, fa: 400, fb: 30_000 },
+            Op::Advance { dh: 15_000 },
+            Op::Swap { u: 1, i: 0, j: 1, x: 50_000_000, ms: Some(DEC / 2) },     // during the ramp
+            Op::Advance { dh: 20_000 },
+            Op::Swap { u: 1, i: 1, j: 2, x: 236_000_000, ms: Some(DEC / 2) },    // after its end
+            Op::Swap { u: 2, i: 2, j: 0, x: 77_000_003, ms: Some(DEC / 2) },
+            Op::Provide { u: 1, d: [10_000_000, 10_000_000, 10_000_000] },
+            Op::Ramp { owner: true, fa: 60, fb: 90_000 },
+            Op::Advance { dh: 70_000 },
+            Op::Swap { u: 2, i: 0, j: 2, x: 150_000_000, ms: Some(DEC / 2) },
+            Op::Withdraw { u: 0, amount: 300_000_000 },
+        ]) },
         // a collection while one asset's pending fee is above the 1000-unit minimum and another's is between 1 and 1000
         History { amp: 100, fees: (DEC / 1000, 3 * DEC / 1000, 0), kinds: [false, false, true], len: 0, fixed: Some(vec![
             Op::Provide { u: 0, d: [1_000_000_000, 1_000_000_000, 1_000_000_000] },
